@@ -150,7 +150,7 @@ def run_case(case, ch: Choices) -> RunResult:
                       "crash_at": None, "crash_kind": None}
                 if st["prior"] == "crashed_prefix":
                     st["crash_at"] = 1 + ch.draw("env.crash_at", max(1, writes0))
-                    st["crash_kind"] = ch.pick("env.crash_kind", ["crash", "enospc", "eio", "torn", "torn", "empty", "torn_anywhere", "enospc_anywhere"])
+                    st["crash_kind"] = ch.pick("env.crash_kind", ["crash", "enospc", "eio", "torn", "torn", "empty", "torn_anywhere", "enospc_anywhere", "kill", "kill"])
             envs.append(st)
             _loc[0] = (st.get("hashseed") or 0) + si if world.get("locale_safe") else None
             _user_cfg[0] = None
@@ -191,10 +191,15 @@ def run_case(case, ch: Choices) -> RunResult:
             if ref["exit"] != 0 and prior in ("over_existing", "crashed_prefix", "twice"):
                 prior = "fresh"
             pre_runs = None
+            reuse_cfg = False
             if prior == "same_process_twice":
                 # one interpreter generates the same project twice (a build script, a watcher): the second generation is judged
                 pre_runs = [{"cwd": root, "argv": m["argv"]}] * (1 + (st.get("enum_seed") or 0) % 2)
                 res.bump("prior.same_process_twice")
+                # (half of the time every generation of that interpreter is handed the very same configuration dict object)
+                reuse_cfg = ((st.get("hashseed") or 0) + si) % 2 == 0
+                if reuse_cfg:
+                    res.bump("prior.same_process_twice_same_config_object")
             elif prior == "same_process_after_edit":
                 # one interpreter generates from an earlier revision of these very files (into another target), the files are
                 # then rewritten in place to the revision under test, and the judged generation runs: it must equal a fresh
@@ -319,7 +324,7 @@ def run_case(case, ch: Choices) -> RunResult:
             elif prior == "other_cwd":
                 prior = "fresh"
             r = run_child(root, m["argv"], m["targets"], hashseed=st["hashseed"], enum_seed=st["enum_seed"], clock=st["clock"],
-                                 pre_runs=pre_runs, timeout=90 if not pre_runs else 200)
+                                 pre_runs=pre_runs, timeout=90 if not pre_runs else 200, reuse_config_object=reuse_cfg)
             if r.get("harness_failure"):
                 raise RuntimeError("child failed: %s" % r.get("child_stderr"))
             if r.get("timeout") and pre_runs:
@@ -507,7 +512,7 @@ def plan(tier, base_seed) -> Plan:
         forced_sets.append({"hashseed": hs, "enum_seed": 100 + i, "creation_seed": 7 + i, "clock": 1_700_000_000.0 + i,
                             "prior": ["crashed_prefix", "over_existing_perturbed", "same_process_twice", "same_process_other_strategy", "same_process_after_edit",
                                       "other_cwd", "same_process_after_other", "over_existing"][i % 8],
-                            "crash_at": [3, 0, 0, 0, 0, 0, 0, 0][i % 8], "crash_kind": ["enospc_anywhere", "crash", "crash", "crash", "crash", "crash", "crash", "crash"][i % 8]})
+                            "crash_at": [3, 0, 0, 0, 0, 0, 0, 0][i % 8], "crash_kind": ["kill", "crash", "crash", "crash", "crash", "crash", "crash", "crash"][i % 8]})
     n_corpus = len(cws)
     # thorough: the previous generation is torn at EVERY write of a corpus world, systematically (kinds alternate)
     sweeps = []
@@ -515,7 +520,7 @@ def plan(tier, base_seed) -> Plan:
         for w in cws:
             for lo in (1, 8, 15):
                 sweeps.append((w, [{"hashseed": [1, 2, 3][(k + lo) % 3], "enum_seed": 50 + k, "creation_seed": None, "clock": 1_700_000_000.0,
-                                    "prior": "crashed_prefix", "crash_at": k, "crash_kind": ["torn", "empty", "crash", "enospc", "torn_anywhere", "enospc_anywhere"][k % 6]}
+                                    "prior": "crashed_prefix", "crash_at": k, "crash_kind": ["torn", "empty", "crash", "enospc", "torn_anywhere", "enospc_anywhere", "kill"][k % 7]}
                                    for k in range(lo, lo + 7)]))
     n_sweep = len(sweeps)
 
